@@ -1,4 +1,6 @@
+pub mod astgen;
 pub mod engine;
+pub mod junkgen;
 pub mod pools;
 pub mod props;
 pub mod refmodel;
